@@ -4,7 +4,7 @@ use std::sync::Arc;
 
 
 use fe2o3_amqp_types::{
-    definitions::{Handle, Role},
+    definitions::{DeliveryTag, Handle, Role},
     messaging::{Accepted, DeliveryState, Outcome},
     performatives::{Attach, Disposition, Transfer},
     primitives::OrderedMap,
@@ -32,8 +32,9 @@ pub(crate) struct TransactionManager {
 
     /// Multi-transfer deliveries posted under a transaction that are not complete yet, by the
     /// handle of their link: the transfers that follow belong to the same transaction even if
-    /// they do not repeat the transactional state
-    pub incomplete_posts: std::collections::BTreeMap<Handle, TransactionId>,
+    /// they do not repeat the transactional state. The delivery-tag named on the first transfer is
+    /// kept with the transaction: a transfer that continues the delivery leaves it out or repeats it
+    pub incomplete_posts: std::collections::BTreeMap<Handle, (TransactionId, Option<DeliveryTag>)>,
 }
 
 impl TransactionManager {
